@@ -86,7 +86,7 @@ def splits(spec):
         # state is 'anchored' iff the uninterrupted run accepted the update of iteration k
         x_k = rk.x
         anchored = bool(sk.shape[0] > 0 and any(np.array_equal(x_k - pt[1], sk[-1]) for pt in full.pts[:mark]))
-        out["traces"].append(("continuation", k, equiv.merge("C06_Continuation", False, tail, lr.pts, None,
+        out["traces"].append(("continuation", k, equiv.merge("C06_Continuation", False, tail, equiv.strip_cached(lr.pts, rk.x), None,
                                                              limit=spec.get("cmp", 6), rtol=1e-6,
                                                              excuses=_roundoff_tail(p, tail, rfull)), anchored))
     # chain of restarts: stop at k1 < k2 < ... and continue; compare the last leg with the uninterrupted run
@@ -106,7 +106,7 @@ def splits(spec):
     if ok and ck is not None and len(ks) >= 2:
         rr, lr = run_to(K, ck=ck)
         tail = full.pts[mark:]
-        out["traces"].append(("chain", len(ks), equiv.merge("C06_Chain", False, tail, lr.pts, None,
+        out["traces"].append(("chain", len(ks), equiv.merge("C06_Chain", False, tail, equiv.strip_cached(lr.pts, ck.x), None,
                                                             limit=spec.get("cmp", 6), rtol=1e-5,
                                                             excuses=_roundoff_tail(p, tail, rfull)), anchored))
     return out
@@ -118,6 +118,10 @@ REGRESSION_SPECS = [
      "kwargs": {"maxcor": 10, "ftol": 0.0, "gtol": 1e-10, "maxiter": 13, "maxfun": 500, "maxls": 20}},
     {"family": "qpcos", "n": 8, "pseed": 39521919, "cond": 26.28724205465373, "kmax": 7, "cmp": 6,
      "kwargs": {"maxcor": 10, "ftol": 0.0, "gtol": 1e-10, "maxiter": 8, "maxfun": 500, "maxls": 20}},
+    # a zero-length trial step right after the split: the uninterrupted run is served from the wrapper's cache, the
+    # restarted run evaluates at the checkpoint's point (false alarm of the first thorough run; see equiv.strip_cached)
+    {"family": "rosenbrock", "n": 5, "pseed": 325236788, "cond": 52.39293522280546, "kmax": 7, "cmp": 6,
+     "kwargs": {"maxcor": 5, "ftol": 0.0, "gtol": 1e-10, "maxiter": 11, "maxfun": 500, "maxls": 20}},
 ]
 
 
@@ -133,6 +137,14 @@ def specs(ctx):
                     "kwargs": {"maxcor": int(rng.choice([1, 2, 3, 5, 10])), "ftol": 0.0, "gtol": 1e-10,
                                "maxiter": int(rng.integers(4, 14)), "maxfun": 500, "maxls": 20},
                     "cond": float(10 ** rng.uniform(0, 2)), "kmax": 7, "cmp": 6})
+    # starved line searches (maxls 1..3) on non-convex objectives: searches fail in mid-run and the memory is reset;
+    # every split point, including the ones that land on a reset
+    for i in range(ctx.pick(300, 3000)):
+        fam = ["rosenbrock", "qpcos", "osc", "styblinski_tang", "qp4"][i % 5]
+        out.append({"family": fam, "n": int(rng.integers(2, 7)), "pseed": int(rng.integers(1 << 30)),
+                    "kwargs": {"maxcor": int(rng.choice([1, 3, 10])), "ftol": 0.0, "gtol": 1e-10,
+                               "maxiter": int(rng.integers(6, 22)), "maxfun": 500, "maxls": int(rng.choice([1, 2, 3]))},
+                    "cond": float(10 ** rng.uniform(0, 2)), "kmax": 20, "cmp": 6})
     return out
 
 
